@@ -16,6 +16,7 @@ import datetime as dt
 import json
 import pickle
 import sys
+import time
 import zoneinfo
 
 import pytz
@@ -29,6 +30,9 @@ from stix2.utils import STIXdatetime, format_datetime, parse_into_datetime
 EPOCH = dt.datetime(1, 1, 1)
 US = dt.timedelta(microseconds=1)
 
+
+# the process time zone is whatever TZ says (the harness runs a share of the workers in non-UTC zones)
+time.tzset()
 
 def via(x, how):
     """The value / object after a copy, a deep copy or a pickle round trip (None: as it is)."""
